@@ -144,10 +144,18 @@ fn one_over_length_long(kind: &str, len: usize, n: u64, seed: u64, rep: &mut Rep
 }
 
 fn umad_config(add: f64, del: f64, len: usize, n: u64, seed: u64, rep: &mut Report) {
-    let cfg = format!("Umad add={add} del={del} len={len}");
+    // every constructor: the empty-genome rate (of `new_with_empty_rate`) is deliberately far from
+    // both other rates, and must not influence what happens to a non-empty parent
+    let ctor = (fnv_str(&format!("{add}/{del}/{len}")) ^ seed) % 3;
+    let empty_rate = ((add + del) * 0.5 + 0.43) % 1.0;
+    let cfg = format!("Umad add={add} del={del} len={len} ctor={}", ["new".to_string(), format!("new_with_empty_rate({empty_rate})"), "new_without_empty".to_string()][ctor as usize]);
     let mut rng = TraceRng::derive(seed, "C12-umad", fnv_str(&cfg));
     let gen = SerialGen::new(0);
-    let umad = Umad::new(add, del, &gen);
+    let umad = match ctor {
+        0 => Umad::new(add, del, &gen),
+        1 => Umad::new_with_empty_rate(add, empty_rate, del, &gen),
+        _ => Umad::new_without_empty(add, del, &gen),
+    };
     let mut deleted = vec![0u64; len];
     let mut fresh_total = 0u64;
     let mut length_sum = 0u64;
